@@ -1,6 +1,7 @@
 import Swat4.Base.Bytes
 import Swat4.Model.Styles
 import Swat4.Model.Slug
+import Swat4.Gen.Facts
 /-!
 # Model of the REST address validation and status routing
 
@@ -745,8 +746,9 @@ def Effect.probe (maxRetries : Int) : Effect → Option ProbeFields
   | .none => Option.none
   | .discover _ a _ _ => some (discoveryProbe a maxRetries)
 
-/-- the message of `gin.H{"error": "Invalid server address"}` (`servers_add.go:27,35`, `servers_view.go:24,40`) -/
-def invalidAddressMessage : String := "Invalid server address"
+/-- the message of `gin.H{"error": …}` (`servers_add.go:27,35`, `servers_view.go:24,40`), read from the source on every run
+(`Facts.restInvalidAddressMessage`): the property does not fix this text -/
+def invalidAddressMessage : String := Facts.restInvalidAddressMessage
 
 /-- the `error` member of a response that carries no server data: the 400 of `api.AddServer` / `api.ViewServer` is
 `c.JSON(400, gin.H{"error": "Invalid server address"})`; the 400 of `api.ListServers` (`listing`) is `c.Status(400)` —
